@@ -119,6 +119,9 @@ def out_of_domain(src, ref, avoid=()):
             return 'long_comment_level'
     if 'esc_z' in avoid and b'\\z' in src:
         return 'esc_z'
+    for t in ref:
+        if t.kind == 'label' and t.text != b'::' + t.value + b'::':
+            return 'spaced_label'    # ':: name ::' is not in the dialect picotool parses (labels are compact)
     return None
 
 
@@ -182,6 +185,30 @@ def part_soup(ctx):
         labs = classify(src, ref)
         ctx.stats.case(src, bool(labs), {'text': show(src, 100), 'labels': labs}, labs)
     ctx.hyp('soup', st.binary(min_size=120, max_size=120), body, max_examples=2500 if ctx.quick else 30000)
+
+
+def part_strings(ctx):
+    def body(seed):
+        src = lexatoms.string_soup(Choices(seed), allow_z='esc_z' not in ctx.open_findings)
+        ref = check_text(src, avoid=ctx.open_findings, stats=ctx.stats)
+        if ref is None:
+            return
+        labs = classify(src, ref) + ['string_soup']
+        if any(t.kind == 'string' and b'\n' in t.text for t in ref):
+            labs.append('multiline_string')
+        ctx.stats.case(src, True, {'text': show(src, 100), 'labels': labs}, labs)
+    ctx.hyp('strings', st.binary(min_size=160, max_size=160), body, max_examples=2500 if ctx.quick else 30000)
+
+
+def part_chars(ctx):
+    def body(seed):
+        src = lexatoms.char_soup(Choices(seed))
+        ref = check_text(src, avoid=ctx.open_findings, stats=ctx.stats)
+        if ref is None:
+            return
+        labs = classify(src, ref) + ['char_soup']
+        ctx.stats.case(src, len(labs) > 1, {'text': show(src, 100), 'labels': labs}, labs)
+    ctx.hyp('chars', st.binary(min_size=90, max_size=90), body, max_examples=3000 if ctx.quick else 40000)
 
 
 def pair_texts():
@@ -271,8 +298,8 @@ def part_cli(ctx):
 
 def parts(tier):
     if tier == 'quick':
-        return [('soup', part_soup, 6), ('pairs', part_pairs, 6), ('cli', part_cli, 1)]
-    return [('soup', part_soup, 10), ('pairs', part_pairs, 5), ('cli', part_cli, 1)]
+        return [('soup', part_soup, 4), ('strings', part_strings, 3), ('chars', part_chars, 3), ('pairs', part_pairs, 5), ('cli', part_cli, 1)]
+    return [('soup', part_soup, 5), ('strings', part_strings, 4), ('chars', part_chars, 3), ('pairs', part_pairs, 3), ('cli', part_cli, 1)]
 
 
 def replay(case):
@@ -285,7 +312,7 @@ def replay(case):
 def vacuity(total, tier):
     msgs = []
     for lab in ('adjacent_no_separator', 'numeral_nonbasic', 'string_nonbasic', 'comment_nonbasic', 'glyph_name',
-                'crlf', 'cli_listtokens'):
+                'crlf', 'cli_listtokens', 'char_soup', 'string_soup', 'multiline_string'):
         if total.classes.get(lab, 0) < 5:
             msgs.append('class %s seen %d times' % (lab, total.classes.get(lab, 0)))
     if total.classes.get('pair_texts', 0) < 5000:
